@@ -85,7 +85,7 @@ def _verify_one(key):
                     seconds=time.time() - t0, outcomes=res.outcomes,
                     assumes=[(lab, txt, reason) for (lab, _, txt, reason) in c.assume_] +
                             [(lab, txt, 'definitional clause (introduces the symbol as the value this function returns)') for (lab, _, txt) in c.defines_],
-                    notes=list(c.notes),
+                    notes=list(c.notes), bounded_cuts=getattr(res, 'bounded_cuts', 0),
                     abstract=c.abstract, verify_body=c.verify_body)
     except Exception as e:
         return dict(key=key, fid=str(key), paths=0, undecided=[], errors=['worker crash: %s\n%s' % (e, traceback.format_exc())],
@@ -138,6 +138,9 @@ def run(pid, tier, seed, update_lock=False, verbose=False, only=None):
     _P = Program()
     # preload the modules the contracts touch (so forked workers share the parse)
     keys = [c.key for c in C.contracts_for(pid) if c.verify_body or True]
+    # contracts marked opt(tier='thorough') (bounded, expensive explorations) run in the thorough tier, or when named with --only
+    if tier != 'thorough' and not only:
+        keys = [k for k in keys if C.REGISTRY[k].opts.get('tier') != 'thorough']
     if only:
         keys = [k for k in keys if only in (k[1] + '@' + k[2])]
     for k in keys:
@@ -267,6 +270,10 @@ def run(pid, tier, seed, update_lock=False, verbose=False, only=None):
                         json.dump(dict(property=pid, obligation='native-sweep', native=r), fh, indent=1, default=str)
                     violations.append('VIOLATION property=%s replay=%s obligation=native-runtime-contract-sweep' % (pid, fn))
         replay.cleanup_scratch()
+    for r in results:
+        if r.get('bounded_cuts'):
+            bounded.append(dict(kind='bounded unrolling (labelled bounded, not counted as proved beyond the bound)', function=r['fid'],
+                                paths_cut_at_the_bound=r['bounded_cuts']))
     selftest = None
     if tier == 'thorough' and repo_root() == '/repo' and not only and not os.environ.get('BSVC_NO_SELFTEST'):
         # engine self-test for this property: registered source mutants / seeded changes must be refuted, neutral edits must hold
